@@ -52,7 +52,8 @@ RULE = ("histories of 2-5 (thorough: 2-7) class definitions — roots, subclasse
         "incl. instances of every user class and the minimal instance, constructor signature, serialize / compact / "
         "camel-case / Serializer / .serialize(), deserialize incl. camel-case round trip, missing and extra keys, trusted "
         "deserialization, None-assignment, del, extra attribute, _required, wrapper targets, JSON schema, schema-to-code "
-        "text, generated .pyi stub text) are compared; the Lean World model runs the same history (with the instances the "
+        "text, generated .pyi stub text, and the export of every class IN ORDER into ONE shared definitions accumulator: schema "
+        "plus what its $refs resolve to in the accumulator) are compared; the Lean World model runs the same history (with the instances the "
         "executor builds for the arguments as explicit constructions) and its per-step observations (definition success, "
         "wrapper targets, keys emitted by serialize, shape of x.serialize() with nested documents, the set of classes "
         "owning a generated serializer after EVERY step, create_serializer success, instantiability, schema 'required', "
